@@ -112,20 +112,11 @@ theorem mapPut_of_WF {es : Entries α} (h : WF es) (k : Key) (v : α) :
     | false => rfl
     | true => rw [scanEq_of_dictEq hd] at he; exact absurd he.2 (by simp)
   unfold mapPut
-  rw [dictOfList_of_WF hf, dictSet_of_not_has v hk]
   exact mapCtor_of_WF (WF_append_singleton.2 ⟨hf, hk⟩)
 
 theorem mapPut_WF {es es' : Entries α} (h : WF es) {k : Key} {v : α} (h' : mapPut es k v = .ok es') : WF es' := by
-  rw [mapPut_of_WF h] at h'
-  injection h' with h'; subst h'
-  have hf : WF (es.filter fun e => !scanEq e.1 k) := WF_filter _ h
-  refine WF_append_singleton.2 ⟨hf, ?_⟩
-  rw [dictHas_eq_false_iff]
-  intro e he
-  simp only [List.mem_filter, Bool.not_eq_eq_eq_not, Bool.not_true] at he
-  cases hd : dictEq e.1 k with
-  | false => rfl
-  | true => rw [scanEq_of_dictEq hd] at he; exact absurd he.2 (by simp)
+  unfold mapPut at h'
+  exact (mapCtor_ok h').1 ▸ (mapCtor_ok h').2
 
 theorem mapRemove_of_WF {es : Entries α} (h : WF es) (ks : List Key) :
     mapRemove es ks = .ok (es.filter fun e => ks.all fun x => !scanEq e.1 x) :=
